@@ -401,4 +401,306 @@ Proof.
       rewrite Hp, !app_nil_r. auto.
   - repeat split; auto.
 Qed.
+
+(* ---- small frame facts ---- *)
+Lemma finv_fields s s' : st_fs s' = st_fs s -> st_outs s' = st_outs s ->
+  (forall t, expected_file E fs0 (st_log s') t = expected_file E fs0 (st_log s) t) -> finv s -> finv s'.
+Proof.
+  intros H1 H2 H3 ((Hk & Hs) & Hf). unfold finv, outs_ok, file_inv. rewrite H1, H2. repeat split; auto.
+  intros t. rewrite H3. auto.
+Qed.
+Lemma finv_set_ins s i : finv s -> finv (set_ins s i).
+Proof. apply finv_fields; auto. Qed.
+Lemma finv_add_obs s o : finv s -> finv (add_obs s o).
+Proof. apply finv_fields; auto. Qed.
+Definition file_irrel (e : event) : Prop :=
+  match e with
+  | EvOpen _ KFile true => False
+  | EvWrite WStdout _ => True
+  | EvWrite _ _ => False
+  | EvChildAppend _ _ => False
+  | _ => True
+  end.
+Lemma finv_add_log s e : file_irrel e -> finv s -> finv (add_log s e).
+Proof.
+  intros He. apply finv_fields; auto. intros t. cbn [st_log add_log expected_file].
+  destruct e as [n [|] [|]|[| |]| | | |]; cbn in He; try contradiction; auto.
+Qed.
+Lemma finv_if_print_errorf (b : bool) s : finv s -> finv (if b then print_errorf E s else s).
+Proof. apply finv_same. apply sf_if_print_errorf. Qed.
+Lemma scan_stream_finv s n i : finv s -> finv (scan_stream s n i).
+Proof.
+  unfold scan_stream. destruct (is_rest i); [apply finv_add_obs|]. destruct (scan_line _ _).
+  intros H. repeat apply finv_add_obs. apply finv_set_ins. auto.
+Qed.
+
+(* a new stream with an empty buffer, for a name that has none *)
+Lemma finv_add s n o : finv s -> alookup n (st_outs s) = None -> os_buf o = [] ->
+  stream_ok F P (st_fs s) n o ->
+  (forall t, stream_target E n o = Some t -> pend E (st_outs s) t = []) ->
+  finv (set_outs s (aset n o (st_outs s))).
+Proof.
+  intros ((Hnd & Hs) & Hf) Hl Hb Hok Hp. split.
+  - split; cbn [st_outs st_fs set_outs].
+    + apply keys_nodup_aset; auto.
+    + intros m o2 Hin. apply In_aset in Hin. destruct Hin as [[-> ->]|[Hin _]]; auto.
+  - intros t. cbn [st_outs st_fs st_log set_outs]. unfold aset. cbn [pend]. rewrite aremove_absent by auto.
+    rewrite Hf. destruct (tgt_is (stream_target E n o) t) eqn:Et; auto.
+    apply tgt_is_true in Et. rewrite (Hp _ Et), Hb. auto.
+Qed.
+
+Lemma finv_add' s n o outs : outs = st_outs s -> finv s -> alookup n (st_outs s) = None -> os_buf o = [] ->
+  stream_ok F P (st_fs s) n o ->
+  (forall t, stream_target E n o = Some t -> pend E (st_outs s) t = []) ->
+  finv (set_outs s (aset n o outs)).
+Proof. intros ->. apply finv_add. Qed.
+
+Lemma amem_false_lookup {A} n (l : list (name * A)) : amem n l = false -> alookup n l = None.
+Proof. unfold amem. destruct (alookup n l); auto; discriminate. Qed.
+
+Lemma get_output_stream_finv s d s' r : finv s ->
+  match d with DRedir RPipe c => P c | DRedir _ n => F n | _ => True end ->
+  get_output_stream E s d = (s', r) ->
+  finv s' /\ (forall n, r = Some (TStream n) -> alookup n (st_outs s') <> None).
+Proof.
+  intros Hi Hw. unfold get_output_stream. destruct d as [| | |rd n].
+  - intros H; injection H as <- <-. split; auto. discriminate.
+  - intros H; injection H as <- <-. split; auto. discriminate.
+  - intros H; injection H as <- <-. split; [|discriminate]. eapply finv_same; [apply sf_flush_stdout|auto].
+  - destruct (amem n (st_ins s)); [intros H; injection H as <- <-; split; [auto|discriminate]|].
+    destruct (amem n (st_outs s)) eqn:Em.
+    { intros H; injection H as <- <-. split; auto. intros n0 H0; injection H0 as <-. unfold amem in Em.
+      destruct (alookup n (st_outs s)); [discriminate|discriminate]. }
+    apply amem_false_lookup in Em.
+    pose proof (sf_flush_stdout E s) as Hsf. fold (flush_out_err E s) in Hsf. set (s1 := flush_out_err E s) in *.
+    pose proof (finv_same _ _ Hsf Hi) as Hi1. destruct Hsf as (S1 & S2 & S3 & S4).
+    assert (Em1 : alookup n (st_outs s1) = None) by (rewrite S2; auto).
+    assert (Hlk : forall (s2 : state) o outs, alookup n (st_outs (set_outs s2 (aset n o outs))) <> None)
+      by (intros; cbn [st_outs set_outs]; rewrite alookup_aset_same; discriminate).
+    destruct rd.
+    + (* > *)
+      destruct (e_bad E n); [intros H; injection H as <- <-; split; [auto|discriminate]|].
+      intros H; injection H as <- <-. split; [|intros n0 H0; injection H0 as <-; apply Hlk].
+      set (s2 := add_log (set_fs s1 (aset n [] (st_fs s1))) (EvOpen n KFile true)).
+      assert (Hi2 : finv s2).
+      { destruct Hi1 as ((Hnd & Hs) & Hf). split.
+        - split; cbn [st_outs st_fs s2 add_log set_fs]; auto. intros m o Hin. pose proof (Hs _ _ Hin) as Hok.
+          unfold stream_ok in *. destruct (os_kind o); auto. destruct Hok as (HF & Hoff). split; auto. intros off Ho.
+          rewrite fs_get_aset. destruct (n =? m) eqn:Enm; auto. apply Z.eqb_eq in Enm. subst m.
+          apply In_alookup in Hin; auto. congruence.
+        - intros t. cbn [st_outs st_fs st_log s2 add_log set_fs expected_file]. rewrite fs_get_aset.
+          destruct (n =? t) eqn:Ent; auto. apply Z.eqb_eq in Ent. subst t.
+          rewrite pend_none; auto. eapply no_stream_for_file; eauto. split; auto. }
+      apply finv_add'; auto.
+      * unfold stream_ok. cbn [os_kind os_off st_fs s2 add_log set_fs]. split; auto.
+        intros off H; injection H as <-. rewrite fs_get_aset, Z.eqb_refl. auto.
+      * unfold stream_target. cbn [os_kind]. intros t H; injection H as <-.
+        apply pend_none. destruct Hi2 as (Hok2 & _). apply (no_stream_for_file s2); auto.
+    + (* >> *)
+      destruct (e_bad E n); [intros H; injection H as <- <-; split; [auto|discriminate]|].
+      intros H; injection H as <- <-. split; [|intros n0 H0; injection H0 as <-; apply Hlk].
+      set (s2 := add_log (set_fs s1 (fs_append (st_fs s1) n [])) (EvOpen n KFile false)).
+      assert (Hfs2 : forall t, fs_get (st_fs s2) t = fs_get (st_fs s1) t).
+      { intros t. cbn [st_fs s2 add_log set_fs]. rewrite fs_get_append. destruct (n =? t) eqn:Ent; auto.
+        apply Z.eqb_eq in Ent. subst. apply app_nil_r. }
+      assert (Hi2 : finv s2).
+      { destruct Hi1 as ((Hnd & Hs) & Hf). split.
+        - split; cbn [st_outs s2 add_log set_fs]; auto. intros m o Hin. pose proof (Hs _ _ Hin) as Hok.
+          unfold stream_ok in *. destruct (os_kind o); auto. destruct Hok as (HF & Hoff). split; auto. intros off Ho.
+          rewrite Hfs2. auto.
+        - intros t. rewrite Hfs2. cbn [st_outs st_log s2 add_log set_fs expected_file]. auto. }
+      apply finv_add'; auto.
+      * unfold stream_ok. cbn [os_kind os_off]. split; auto. discriminate.
+      * unfold stream_target. cbn [os_kind]. intros t H; injection H as <-.
+        apply pend_none. destruct Hi2 as (Hok2 & _). apply (no_stream_for_file s2); auto.
+    + (* | *)
+      match goal with |- context [if ?c then set_unmod s1 else s1] => set (s2 := if c then set_unmod s1 else s1) end.
+      assert (Hsf2 : same_files E s1 s2) by apply sf_if_unmod.
+      pose proof (finv_same _ _ Hsf2 Hi1) as Hi2.
+      pose proof (finv_add_log s2 (EvOpen n KCmd false) I Hi2) as Hi3.
+      assert (Hq : Q n) by (apply (af_PQ _ _ _ _ AF); auto).
+      assert (Em3 : alookup n (st_outs (add_log s2 (EvOpen n KCmd false))) = None).
+      { destruct Hsf2 as (_ & T2 & _). cbn [st_outs add_log]. rewrite T2. auto. }
+      destruct (start_proc_finv _ n Hi3 Hq) as (Hi4 & O4 & _); [intros o Ho; congruence|].
+      destruct (start_proc E _ n) as [s4 cg]. cbn [fst] in *.
+      pose proof (sf_child_out E s4 cg (c_stdout (e_spec E n))) as Hsf5.
+      destruct (child_out E s4 cg _) as [s5 ok]. cbn [fst] in *.
+      pose proof (finv_same _ _ Hsf5 Hi4) as Hi5.
+      match goal with |- context [if ?c then set_unmod s5 else s5] => set (s6 := if c then set_unmod s5 else s5) end.
+      assert (Hsf6 : same_files E s5 s6) by apply sf_if_unmod.
+      pose proof (finv_same _ _ Hsf6 Hi5) as Hi6.
+      assert (Em6 : alookup n (st_outs s6) = None).
+      { destruct Hsf6 as (_ & T6 & _). destruct Hsf5 as (_ & T5 & _). rewrite T6, T5, O4. auto. }
+      intros H; injection H as <- <-. split; [|intros n0 H0; injection H0 as <-; apply Hlk].
+      apply finv_add'; auto.
+      * unfold stream_target. cbn [os_kind]. intros t Ht.
+        apply pend_none. destruct Hi6. eapply no_stream_for_sink; eauto.
+Qed.
+
+Lemma write_ostream_files s n o p s' o' :
+  write_ostream E s n o p = (s', o') -> stream_ok F P (st_fs s) n o ->
+  exists f, st_outs s' = st_outs s /\
+  (forall t, fs_get (st_fs s') t = fs_get (st_fs s) t ++ (if tgt_is (stream_target E n o) t then f else [])) /\
+  (forall t, expected_file E fs0 (st_log s') t = expected_file E fs0 (st_log s) t) /\
+  os_kind o' = os_kind o /\ os_buf o ++ p = f ++ os_buf o' /\ stream_ok F P (st_fs s') n o'.
+Proof.
+  unfold write_ostream. destruct (buf_bytes (e_fcap E) (os_buf o) p) as [f r] eqn:Eb.
+  destruct (deliver E s n o f) as [s1 o1] eqn:Ed. intros H Hok. injection H as <- <-.
+  destruct (deliver_files _ _ _ _ _ _ Ed Hok) as (A1 & A2 & A3 & A4 & A5 & A6 & A7).
+  exists f. cbn [os_kind os_buf]. apply buf_bytes_spec in Eb.
+  repeat split; auto; unfold stream_ok in *; cbn [os_kind os_off]; auto.
+Qed.
+
+Lemma close_ostream_files s n o s' code err :
+  close_ostream E s n o = (s', code, err) -> stream_ok F P (st_fs s) n o ->
+  st_outs s' = st_outs s /\
+  (forall t, fs_get (st_fs s') t = fs_get (st_fs s) t ++ (if tgt_is (stream_target E n o) t then os_buf o else [])) /\
+  (forall t, expected_file E fs0 (st_log s') t = expected_file E fs0 (st_log s) t).
+Proof.
+  unfold close_ostream. destruct (flush_ostream E s n o) as [s1 o1] eqn:Ef. intros H Hok.
+  destruct (flush_ostream_files _ _ _ _ _ Ef Hok) as (A1 & A2 & A3 & A4 & A5 & A6 & A7).
+  destruct (os_kind o1).
+  - injection H as <- <- <-. auto.
+  - pose proof (sf_child_eof E s1 (os_cgfail o1)) as Hsf. destruct (child_eof E s1 _) as [s2 ok]. cbn [fst] in Hsf.
+    destruct (wait_result _ _). injection H as <- <- <-. destruct Hsf as (B1 & B2 & B3 & B4).
+    rewrite B1, B2. repeat split; auto. intros t. rewrite B4. auto.
+Qed.
+
+Lemma step_finv s o s' oc : finv s -> op_within F P Q o -> step E s o = (s', oc) -> finv s'.
+Proof.
+  intros Hi Hw. destruct o as [d ps|n|[n|]|c|n|c| |code|]; cbn [step].
+  - (* Print *)
+    destruct (get_output_stream E s d) as [s1 r] eqn:Eg.
+    assert (Hw' : match d with DRedir RPipe c => P c | DRedir _ n => F n | _ => True end).
+    { cbn [op_within] in Hw. destruct d as [| | |[| |] n]; auto. }
+    destruct (get_output_stream_finv _ _ _ _ Hi Hw' Eg) as (Hi1 & Hopen).
+    destruct r as [[|n]|]; [| |intros H; injection H as <- <-; auto].
+    + pose proof (sf_write_stdout E s1 ps) as Hsf. destruct (write_stdout E s1 ps) as [s2 [|]]; cbn [fst] in Hsf;
+        intros H; injection H as <- <-; eapply finv_same; eauto.
+    + destruct (alookup n (st_outs s1)) as [os|] eqn:El; [|intros H; injection H as <- <-; auto].
+      set (w := match os_kind os with KFile => WFile n | KCmd => WCmd n end).
+      set (s1' := add_log s1 (EvWrite w (concat ps))).
+      destruct (write_ostream E s1' n os (concat ps)) as [s2 os'] eqn:Ew.
+      pose proof (finv_lookup_ok _ _ _ Hi1 El) as Hok.
+      destruct (write_ostream_files _ _ _ _ _ _ Ew Hok) as (f & A1 & A2 & A3 & A4 & A5 & A6).
+      intros H; injection H as <- <-.
+      apply (finv_update s1 n os s2 os' (concat ps) f); auto.
+      intros t. rewrite A3. cbn [st_log s1' add_log expected_file].
+      assert (Hwt : wdest_target E w = stream_target E n os).
+      { subst w. unfold stream_target. destruct (os_kind os); auto. }
+      rewrite Hwt. destruct (tgt_is _ t); [auto|rewrite app_nil_r; auto].
+  - (* Close *)
+    destruct (alookup n (st_ins s)) as [i|] eqn:Ei.
+    + destruct (if is_cmd i then _ else _) as [code err]. intros H; injection H as <- <-.
+      apply finv_add_obs. apply finv_if_print_errorf. apply finv_add_log; [exact I|]. apply finv_set_ins. auto.
+    + destruct (alookup n (st_outs s)) as [os|] eqn:El; [|intros H; injection H as <- <-; apply finv_add_obs; auto].
+      destruct (close_ostream E _ n os) as [[s1 code] err] eqn:Ec.
+      pose proof (finv_lookup_ok _ _ _ Hi El) as Hok.
+      destruct (close_ostream_files _ _ _ _ _ _ Ec Hok) as (A1 & A2 & A3).
+      intros H; injection H as <- <-.
+      apply finv_add_obs. apply finv_if_print_errorf. apply finv_add_log; [exact I|].
+      apply (finv_remove s n os s1); auto.
+  - (* fflush(name) *)
+    destruct (alookup n (st_outs s)) as [os|] eqn:El; intros H; injection H as <- <-; apply finv_add_obs.
+    + apply flush_named_finv; auto.
+    + apply (finv_if_print_errorf true). auto.
+  - (* fflush() *)
+    destruct (flush_all_finv s Hi) as (Hi1 & _). destruct (flush_all E s) as [s1 ok]. cbn [fst] in Hi1.
+    intros H; injection H as <- <-. apply finv_add_obs. auto.
+  - (* system *)
+    cbn [op_within] in Hw.
+    destruct (flush_all_finv s Hi) as (Hi1 & _ & _ & Hb1). destruct (flush_all E s) as [s1 ok]. cbn [fst] in *.
+    destruct (start_proc_finv s1 c Hi1 Hw) as (Hi2 & _); [intros o Ho; eapply Hb1; eauto|].
+    destruct (start_proc E s1 c) as [s2 cg]. cbn [fst] in Hi2.
+    pose proof (sf_child_out E s2 cg (c_stdout (e_spec E c))) as Hsf3. destruct (child_out E s2 cg _) as [s3 ok3]. cbn [fst] in Hsf3.
+    pose proof (sf_child_eof E s3 (negb ok3)) as Hsf4. destruct (child_eof E s3 _) as [s4 ok4]. cbn [fst] in Hsf4.
+    destruct (wait_result _ _) as [code err]. intros H; injection H as <- <-.
+    apply finv_add_obs. apply finv_if_print_errorf. eapply finv_same; [exact Hsf4|]. eapply finv_same; [exact Hsf3|]. auto.
+  - (* getline < file *)
+    destruct (amem n (st_outs s)); [intros H; injection H as <- <-; auto|].
+    destruct (alookup n (st_ins s)); [intros H; injection H as <- <-; apply scan_stream_finv; auto|].
+    destruct (alookup n (st_fs s)); intros H; injection H as <- <-.
+    + apply scan_stream_finv. apply finv_set_ins. auto.
+    + apply finv_add_obs. auto.
+  - (* cmd | getline *)
+    cbn [op_within] in Hw.
+    destruct (amem c (st_outs s)) eqn:Em; [intros H; injection H as <- <-; auto|]. apply amem_false_lookup in Em.
+    destruct (alookup c (st_ins s)); [intros H; injection H as <- <-; apply scan_stream_finv; auto|].
+    pose proof (sf_flush_stdout E s) as Hsf. fold (flush_out_err E s) in Hsf.
+    pose proof (finv_same _ _ Hsf Hi) as Hi1. destruct Hsf as (_ & S2 & _).
+    destruct (start_proc_finv _ c Hi1 Hw) as (Hi2 & _); [intros o Ho; rewrite S2 in Ho; congruence|].
+    destruct (start_proc E _ c) as [s2 cg]. cbn [fst] in Hi2.
+    intros H; injection H as <- <-. apply scan_stream_finv. apply finv_set_ins. auto.
+  - intros H; injection H as <- <-. apply finv_add_obs. eapply finv_same; [apply sf_flush_stdout|auto].
+  - intros H; injection H as <- <-. auto.
+  - intros H; injection H as <- <-. auto.
+Qed.
+
+Lemma exec_finv ops : forall s s' r, finv s -> Forall (op_within F P Q) ops -> exec E s ops = (s', r) -> finv s'.
+Proof.
+  induction ops as [|o ops IH]; intros s s' r Hi Hw; cbn [exec].
+  - intros H; injection H as <- <-; auto.
+  - inversion Hw as [|? ? Hw1 Hw2]; subst.
+    destruct (step E s o) as [s1 [| |]] eqn:Es; pose proof (step_finv _ _ _ _ Hi Hw1 Es) as Hi1.
+    + apply IH; auto.
+    + intros H; injection H as <- <-; auto.
+    + intros H; injection H as <- <-; auto.
+Qed.
+
+Lemma close_streams_finv ns : forall s, finv s ->
+  finv (close_streams E s ns) /\
+  (forall m, alookup m (st_outs (close_streams E s ns)) <> None -> alookup m (st_outs s) <> None /\ ~ In m ns).
+Proof.
+  induction ns as [|n ns IH]; intros s Hi; cbn [close_streams].
+  - split; auto.
+  - destruct (alookup n (st_outs s)) as [o|] eqn:El.
+    + destruct (close_ostream E _ n o) as [[s1 code] err] eqn:Ec.
+      pose proof (finv_lookup_ok _ _ _ Hi El) as Hok.
+      destruct (close_ostream_files _ _ _ _ _ _ Ec Hok) as (A1 & A2 & A3).
+      assert (Hi1 : finv (add_log s1 (EvClose n false code))).
+      { apply finv_add_log; [exact I|]. apply (finv_remove s n o s1); auto. }
+      destruct (IH _ Hi1) as (B1 & B2). split; auto.
+      intros m Hm. destruct (B2 m Hm) as (C1 & C2). cbn [st_outs add_log] in C1. rewrite A1 in C1. cbn [st_outs set_outs] in C1.
+      rewrite alookup_aremove in C1. destruct (n =? m) eqn:Enm; [congruence|]. apply Z.eqb_neq in Enm.
+      split; auto. intros [H|H]; auto.
+    + destruct (IH _ Hi) as (B1 & B2). split; auto.
+      intros m Hm. destruct (B2 m Hm) as (C1 & C2). split; auto. intros [H|H]; auto. subst. congruence.
+Qed.
+
+Lemma all_none_nil {A} (l : list (name * A)) : (forall m, alookup m l = None) -> l = [].
+Proof. destruct l as [|[k v] l]; auto. intros H. specialize (H k). cbn [alookup] in H. rewrite Z.eqb_refl in H. discriminate. Qed.
+
+Lemma close_all_finv s : finv s -> finv (close_all E s) /\ st_outs (close_all E s) = [].
+Proof.
+  intros Hi. unfold close_all.
+  destruct (close_streams_finv (map fst (st_outs (set_ins s []))) _ (finv_set_ins s [] Hi)) as (B1 & B2).
+  set (s1 := close_streams E _ _) in *.
+  pose proof (sf_flush_stdout E s1) as Hsf. fold (flush_out_err E s1) in Hsf.
+  split; [eapply finv_same; eauto|]. destruct Hsf as (_ & S2 & _). rewrite S2.
+  apply all_none_nil. intros m. destruct (alookup m (st_outs s1)) eqn:El; auto.
+  exfalso. destruct (B2 m) as (C1 & C2); [congruence|]. apply C2. apply In_keys_lookup. auto.
+Qed.
+
+Lemma init_finv fs : fs = fs0 -> finv (init_state fs None) /\ forall l, finv (init_state fs l).
+Proof.
+  intros ->. assert (H : forall l, finv (init_state fs0 l)).
+  { intros l. split.
+    - split; cbn; [constructor|intros ? ? []].
+    - intros t. cbn. rewrite app_nil_r. auto. }
+  split; auto.
+Qed.
+
+(* delivered_in_order, files: whatever way the run ends and whether or not
+   standard output fails, every file holds exactly what the log prescribes *)
+Theorem files_delivered limit ops s r :
+  Forall (op_within F P Q) ops ->
+  run E (init_state fs0 limit) ops = (s, r) ->
+  st_outs s = [] /\ forall t, fs_get (st_fs s) t = expected_file E fs0 (st_log s) t.
+Proof.
+  intros Hw. unfold run. destruct (exec E _ ops) as [s1 r1] eqn:Ee. intros H; injection H as <- <-.
+  destruct (init_finv fs0 eq_refl) as (_ & H0).
+  pose proof (exec_finv _ _ _ _ (H0 limit) Hw Ee) as Hi1.
+  destruct (close_all_finv s1 Hi1) as ((_ & Hf) & Ho). split; auto.
+  intros t. rewrite Hf, Ho. cbn [pend]. rewrite app_nil_r. auto.
+Qed.
 End Files.
